@@ -255,7 +255,7 @@ MANIFEST_ENTRY = {
             "all orders), and inverse-biased operation histories against the state machine; search: inverse(t(x)) = x = t(inverse(x)) on the "
             "implementation for every class x parameter kind x link x update_buffers x .inv, before and after parameter changes, named "
             "composites and hand-built composites of 1..5 members.",
-    "note": "Round 2: added C07_inverse_stays_inverse_link_and_callable (link in {False, True} for fixed tensors, link=False for callables), "
+    "note": "Round 3: C07_inverse_link_parameter (inverse(link=True)/.inv on a Parameter-held transform succeeds, the original keeps its Parameter, the inverse follows every later in-place edit) replaces the former refutation; C07_linked_inverse_same_reparameterisation (has_parameters() traced for every class x way of holding params, incl. links); steps=0 in the affine-generator correspondence and as oracle regression. Round 2: added C07_inverse_stays_inverse_link_and_callable (link in {False, True} for fixed tensors, link=False for callables), "
             "C07_inverse_update_buffers_gives_inverse_field (rests on the statement order of SVF/SVFFD.inverse read from the source), "
             "C07_affine_generator_second_order (every k: exp_k(-h) exp_k(h) = (1 - h^2/4^k)^(2^k), by induction over k; the multiplier exp_k is "
             "compared with StationaryVelocityFieldTransform on diagonal affine generators on every run, agreement ~1e-9). Still partial: "
